@@ -667,3 +667,83 @@ func ruleDecryptAuth(c *Ctx, r *Report) {
 	}
 	r.Floor(rule, n, 3)
 }
+
+// ruleCommitMarksWindow (C06): the commit function a replay marker hands to the record consumers
+// marks the sequence number in the detector on every path: it is either the detector's own
+// accept function, or a function literal in which every path to a return passes a call of it.
+// A commit that returns without marking leaves the delivered record replayable.
+func ruleCommitMarksWindow(c *Ctx, r *Report) {
+	const rule = "commit-marks-window"
+	n := 0
+	for _, s := range c.CallsTo(func(name string) bool { return strings.HasSuffix(name, "ReplayDetector.Check") }) {
+		call, ok := s.Call.(*ssa.Call)
+		if !ok {
+			continue
+		}
+		fn := s.Fn
+		accept := resultValue(call, 0)
+		if accept == nil {
+			r.Bad(rule, short(fn), c.ipos(call), "the detector's accept function is discarded: nothing can mark the record as received")
+			continue
+		}
+		r.Sites += len(fn.Blocks)
+		// what the marker returns as its commit function
+		for _, b := range fn.Blocks {
+			ret, isRet := b.Instrs[len(b.Instrs)-1].(*ssa.Return)
+			if !isRet || len(ret.Results) != 2 {
+				continue
+			}
+			v := unspill(ret.Results[0])
+			if isNilConst(v) {
+				continue
+			}
+			n++
+			key := fmt.Sprintf("%s:commit", short(fn))
+			if v == accept {
+				r.OK(rule, key, c.ipos(ret), "the commit function is the detector's accept function")
+				continue
+			}
+			mc, isMC := v.(*ssa.MakeClosure)
+			if !isMC {
+				r.Bad(rule, key, c.ipos(ret), "the commit function handed out is neither the detector's accept function nor a function literal around it")
+				continue
+			}
+			lit := mc.Fn.(*ssa.Function)
+			// the captured accept inside the literal
+			var fv *ssa.FreeVar
+			for i, bnd := range mc.Bindings {
+				bv := bnd
+				if al, isAl := bnd.(*ssa.Alloc); isAl {
+					// captured by reference: the cell must hold accept
+					for _, ref := range *al.Referrers() {
+						if st, isSt := ref.(*ssa.Store); isSt && st.Addr == ssa.Value(al) && st.Val == accept {
+							bv = accept
+						}
+					}
+				}
+				if bv == accept && i < len(lit.FreeVars) {
+					fv = lit.FreeVars[i]
+				}
+			}
+			if fv == nil {
+				r.Bad(rule, key, c.ipos(ret), "the commit function literal does not capture the detector's accept function")
+				continue
+			}
+			isAcceptCall := func(in ssa.Instruction) bool {
+				cl, ok := in.(*ssa.Call)
+				if !ok || cl.Call.IsInvoke() {
+					return false
+				}
+				cv := cl.Call.Value
+				if u, isU := cv.(*ssa.UnOp); isU {
+					cv = u.X
+				}
+				return cv == ssa.Value(fv)
+			}
+			w := &Walk{Fn: lit, Visit: func(in ssa.Instruction, _ Env) bool { return !isAcceptCall(in) }}
+			w.FromEntry()
+			r.Check(len(w.Returns) == 0, rule, key, c.ipos(ret), "every path of the commit function marks the sequence number in the detector", "the commit function can return without calling the detector's accept function: a record delivered on that path is not marked as received and every duplicate of it inside the window is delivered again")
+		}
+	}
+	r.Floor(rule, n, 2)
+}
